@@ -1089,8 +1089,9 @@ func (c *fctx) switchStmt(x *ast.SwitchStmt, rest []ast.Stmt, k, restK *cont, n 
 }
 
 // bufStmt recognises the two in-place operations on a written slice:
-//   copy(buf[dst:], buf[src:])            ->  buf ← GoBuf.copyWithin buf dst src
-//   protowire.PutUvarint(buf[lo:hi], x)   ->  buf ← GoBuf.putUvarintAt buf lo hi x
+//
+//	copy(buf[dst:], buf[src:])            ->  buf ← GoBuf.copyWithin buf dst src
+//	protowire.PutUvarint(buf[lo:hi], x)   ->  buf ← GoBuf.putUvarintAt buf lo hi x
 func (c *fctx) bufStmt(call *ast.CallExpr, n int) (string, bool, error) {
 	sliceOfBuf := func(e ast.Expr) (*ast.SliceExpr, lx, bool) {
 		se, ok := stripParens(e).(*ast.SliceExpr)
